@@ -38,6 +38,12 @@ class Mod:
             self.tree = ast.parse(self.src, filename=rel)
         except SyntaxError as e:
             raise AnalysisError(f"cannot parse {rel}: {e}")
+        # comparisons are read in one orientation: `a > b` as `b < a`, `a >= b` as `b <= a` (rules never depend on which way a
+        # maintainer wrote an inequality)
+        if not os.environ.get("LXS_NO_CMPCANON"):
+            from . import names as _nm
+            _nm.canon_compare(self.tree)
+            _nm.canon_consts(self.tree)
         # renamed locals are alpha-renamed back to the names the rules know (lxs/names.py); resolution only, never a verdict
         self.renames = []
         if not os.environ.get("LXS_NO_RENAME"):
